@@ -1,0 +1,50 @@
+//go:build verif
+
+package blockchain
+
+import (
+	"github.com/dappledger/AnnChain/gemmill/types"
+)
+
+// Constructors and a decoder for the block-sync messages, whose types are unexported
+// (build tag "verif"): a simulated peer needs them to speak the protocol.
+
+// The Verif*Msg functions return values that Peer.Send / TrySend encode as the reactor's own messages.
+
+func VerifBlockResponseMsg(b *types.Block) interface{} {
+	return struct{ BlockchainMessage }{&bcBlockResponseMessage{Block: b}}
+}
+
+func VerifStatusResponseMsg(height int64) interface{} {
+	return struct{ BlockchainMessage }{&bcStatusResponseMessage{height}}
+}
+
+func VerifBlockRequestMsg(height int64) interface{} {
+	return struct{ BlockchainMessage }{&bcBlockRequestMessage{height}}
+}
+
+// VerifDecode returns the kind of a message ("block-request", "block-response",
+// "status-request", "status-response", "") and the height it carries.
+func VerifDecode(bz []byte) (kind string, height int64) {
+	if len(bz) == 0 {
+		return "", 0
+	}
+	_, msg, err := DecodeMessage(bz)
+	if err != nil {
+		return "", 0
+	}
+	switch m := msg.(type) {
+	case *bcBlockRequestMessage:
+		return "block-request", m.Height
+	case *bcBlockResponseMessage:
+		if m.Block != nil && m.Block.Header != nil {
+			return "block-response", m.Block.Height
+		}
+		return "block-response", 0
+	case *bcStatusRequestMessage:
+		return "status-request", m.Height
+	case *bcStatusResponseMessage:
+		return "status-response", m.Height
+	}
+	return "", 0
+}
